@@ -125,6 +125,7 @@ class Sim:
         self.stderr = io.StringIO()
         self.hung = False
         self.vtime_total = 0.0
+        self.placement = None  # sim.remote.Placement: some job bodies run in a fresh interpreter
 
     # -- bookkeeping -------------------------------------------------------
     def seq(self) -> int:
@@ -235,10 +236,15 @@ class Sim:
             else:
                 sh.overlay = None
         try:
-            if self.body_wrapper is not None:
-                job.result = self.body_wrapper(job, lambda: job.fn(*job.args, **job.kwargs))
+            pl = self.placement
+            if pl is not None and pl.wants(job):
+                call = lambda: pl.run(job)  # noqa: E731
             else:
-                job.result = job.fn(*job.args, **job.kwargs)
+                call = lambda: job.fn(*job.args, **job.kwargs)  # noqa: E731
+            if self.body_wrapper is not None:
+                job.result = self.body_wrapper(job, call)
+            else:
+                job.result = call()
             job.exc = None
         except (SimHang, SimStepLimit, KeyboardInterrupt, SystemExit):
             raise
